@@ -22,6 +22,7 @@ type Obligation struct {
 	Text     string // source text of the clause (for reports)
 	Backends []string
 	Timeout  int
+	softDrop int // 0: full query; 1: without existential contract clauses; 2: without any quantified contract clause
 	ctx      *Ctx
 	// results
 	Verdict Verdict
@@ -83,6 +84,8 @@ type Ctx struct {
 	qdecl          map[int]bool
 	bitInfo        map[string][2]int
 	declaredSym    map[string]bool
+	soft           map[int]int
+	goalMode       int // >0 while a clause is evaluated as a proof goal (not as an assumption)
 }
 
 func newCtx(prog *Program, pkg *Pkg, mode Mode) *Ctx {
@@ -127,6 +130,22 @@ func (c *Ctx) name(t Term, hint string) Term {
 		return Term{s, t.Sort}
 	}
 	c.decls = append(c.decls, fmt.Sprintf("(define-fun %s () %s %s)", s, t.Sort, t.S))
+	if b, ok := c.bitInfo[t.S]; ok {
+		c.bitInfo[s] = b
+	}
+	return Term{s, t.Sort}
+}
+
+// nameDeclared names a term by a declared constant plus an equation (instead of a define-fun macro). Index terms are
+// named this way: solvers normalise arithmetic inside macro-expanded terms, after which (select row (+ off <sum>)) no
+// longer matches a trigger (select row (+ off k)); with an opaque constant in place of the sum it does.
+func (c *Ctx) nameDeclared(t Term, hint string) Term {
+	if isAtom(t.S) || c.noName > 0 {
+		return t
+	}
+	s := c.sym(hint)
+	c.decls = append(c.decls, fmt.Sprintf("(declare-fun %s () %s)", s, t.Sort), fmt.Sprintf("(assert (= %s %s))", s, t.S))
+	c.markDeclared(s)
 	if b, ok := c.bitInfo[t.S]; ok {
 		c.bitInfo[s] = b
 	}
@@ -287,6 +306,16 @@ func (o *Obligation) HasQFacts() bool {
 	return false
 }
 
+// HasSoft reports whether droppable quantified contract clauses precede the obligation.
+func (o *Obligation) HasSoft() bool {
+	for i := range o.ctx.soft {
+		if i < o.NDecl {
+			return true
+		}
+	}
+	return false
+}
+
 func (o *Obligation) QueryOpt(withModel, light bool) string {
 	c := o.ctx
 	var b strings.Builder
@@ -296,6 +325,12 @@ func (o *Obligation) QueryOpt(withModel, light bool) string {
 	b.WriteString("(set-logic ALL)\n")
 	for i, d := range c.decls[:o.NDecl] {
 		if light && c.qdecl[i] {
+			continue
+		}
+		if lv, ok := c.soft[i]; ok && o.softDrop > 0 && lv >= 3-o.softDrop {
+			// softDrop 1: leave out clauses with existentials; softDrop 2: leave out every quantified clause
+			sym := strings.Fields(d)[1]
+			b.WriteString("(define-fun " + sym + " () Bool true)\n")
 			continue
 		}
 		b.WriteString(d)
